@@ -50,6 +50,19 @@ def cases_er(tier, seed):
     for corp in corp1[: 169] + corp3:
         for lst, id2token, batch in itertools.product(LISTS, (False, True), (1, 100)):
             yield dict(base, utts=utts(corp), id2token=id2token, swap=id2token and batch == 1, batch=batch, **lst)
+    # ref/ and hyp/ hold different utterance sets (missing on either side, on both): every figure is over the
+    # matched utterances only
+    patterns = (dict(ref=[IDS[0]], hyp=[]), dict(ref=[], hyp=[IDS[1]]), dict(ref=[IDS[2]], hyp=[IDS[0]]))
+    for ci, corp in enumerate(corp3):
+        for pat, (per_utt, distances) in itertools.product(patterns, itertools.product((False, True), repeat=2)):
+            for batch in ((1, 100) if ci % 2 == 0 else (2,)):
+                yield dict(base, utts=utts(corp), batch=batch, per_utt=per_utt, distances=distances, missing=pat,
+                           warn_missing=True, layout="explicit", costs="nist" if ci % 3 == 0 else None)
+        if ci % 4 == 0:
+            for pat in patterns:
+                yield dict(base, utts=utts(corp), batch=2, distances=True, missing=pat, warn_missing=True,
+                           id2token=True, **LISTS[2])
+                yield dict(base, utts=utts(corp), distances=True, missing=pat, warn_missing=False)
     for corp in corp3:  # a swap whose source is also ignored; batch size equal to the corpus
         for id2token in (False, True):
             yield dict(base, utts=utts(corp), id2token=id2token, batch=3, replace={"a": "b", "b": "a"}, ignore=["a"])
@@ -210,6 +223,9 @@ def cases_sub(tier, seed):
         for crit in ("utt-list", "utt-list-file"):
             yield dict(base, crit=crit, value=list(reversed(ids))[: max(1, N - 1)] + ["nope"], **corp)
             yield dict(base, crit=crit, value=[ids[0]], **corp)
+    for lens, rank, only in itertools.product((LENS[3], LENS[7]), (1, 3), (False, True)):
+        for crit, value in (("shortest-n", 2), ("longest-n", 1), ("shortest-ratio", 0.5), ("first-n", 2)):
+            yield dict(base, crit=crit, value=value, lens=lens, presence="all", only=only, rank=rank, style="copy")
     first_real = tier == "thorough"
     for lens in (LENS[3], LENS[7]):
         corp = dict(lens=lens, presence="some")
@@ -260,7 +276,12 @@ def eval_sub(env, case):
     have = {"feat": set(ids), "ali": set(), "ref": set()}
     for i, (u, T) in enumerate(zip(ids, lens)):
         name = prefix + u + suffix
-        save(torch.tensor([[rng.randrange(-8, 9) / 4.0, float(i)] for _ in range(T)]), os.path.join(src, "feat", name))
+        ft = torch.tensor([[rng.randrange(-8, 9) / 4.0, float(i)] for _ in range(T)])
+        if case.get("rank") == 1:
+            ft = ft[:, 0].contiguous()
+        elif case.get("rank") == 3:
+            ft = ft.unsqueeze(1).expand(T, 3, 2).contiguous()
+        save(ft, os.path.join(src, "feat", name))
         if pres == "all" or (pres == "some" and i % 2 == 0):
             save(torch.tensor([i % 3] * T), os.path.join(src, "ali", name))
             have["ali"].add(u)
@@ -375,6 +396,16 @@ def cases_stat(tier, seed):
         return c
 
     tsets = [[2], [1, 1], [1, 2], [3, 1, 2], [2, 2, 2], [1, 1, 1]]
+    # (rank, position of the feature dimension, how --dim is spelled): the help admits tensors of any rank
+    layouts = [(3, 2, "default"), (3, 2, "pos"), (3, 2, "neg"), (3, 1, "pos"), (3, 1, "neg"), (3, 0, "pos"), (3, 0, "neg"),
+               (2, 1, "pos"), (2, 1, "neg"), (2, 0, "neg"), (1, 0, "default"), (1, 0, "pos"), (1, 0, "neg")]
+    for (k, Ts), layout, bessel in itertools.product(enumerate(tsets), layouts, (False, True)):
+        prefix, suffix = IOS[(k + layout[1] + bessel) % 4]
+        for groups in (None, "two"):
+            if groups == "two" and len(Ts) < 3:
+                continue
+            yield dict(fam="stat", kind="mvn", Ts=Ts, n=len(Ts), prefix=prefix, suffix=suffix, bessel=bessel,
+                       groups=groups, dim=None, layout=list(layout))
     for Ts in tsets:
         for (prefix, suffix), bessel in itertools.product(IOS, (False, True)):
             for groups, dim in ((None, -1), (None, 0), ("two", -1), ("each", -1)):
@@ -443,16 +474,19 @@ def _eval_mvn(env, case):
     rng = random.Random(env.seed * 7919 + sum(Ts) * 31 + len(Ts))
     ids = IDS[: len(Ts)]
     vecs = {}
+    rank, pos, spell = case.get("layout") or ((2, 1, "default") if dim == -1 else (2, 0, "pos"))
+    CH = 3  # size of the extra (channel) dimension of rank-3 files
     for u, T in zip(ids, Ts):
-        x = [[rng.randrange(-16, 17) / 4.0, rng.randrange(-4, 5) / 2.0] for _ in range(T)]
+        n = {1: 1, 2: T, 3: T * CH}[rank]
+        x = [[rng.randrange(-16, 17) / 4.0, rng.randrange(-4, 5) / 2.0] for _ in range(n)]
         vecs[u] = x
-        t = torch.tensor(x)
-        save(t.t().contiguous() if dim == 0 else t, os.path.join(d, prefix + u + suffix))
+        t = torch.tensor(x).view(*{1: (2,), 2: (T, 2), 3: (T, CH, 2)}[rank])
+        save(t.movedim(-1, pos).contiguous(), os.path.join(d, prefix + u + suffix))
     for name in distractor_names(prefix, suffix):
         save(torch.full((3, 2), 99.0), os.path.join(d, name))
     args = [d, out] + io_flags(prefix, suffix) + (["--bessel"] if case["bessel"] else [])
-    if dim != -1:
-        args += ["--dim", dim]
+    if spell != "default":
+        args += ["--dim", pos if spell == "pos" else pos - rank]
     gmap = None
     if case["groups"] == "two":
         gmap = {u: ("g0" if i == 0 else "g1") for i, u in enumerate(ids)}
@@ -461,7 +495,7 @@ def _eval_mvn(env, case):
     if gmap:
         args += ["--id2gid", write(env.p("id2gid"), "".join(f"{u} {g}\n" for u, g in gmap.items()))]
     api = "compute-mvn-stats-for-torch-feat-data-dir"
-    flags = {"bessel": case["bessel"], "grouped": gmap is not None}
+    flags = {"bessel": case["bessel"], "grouped": gmap is not None, "rank": rank}
     res = run_cmd(C.compute_mvn_stats_for_torch_feat_data_dir, args + ["--num-workers", 0])
     env.ev(api)
     groups = {}
@@ -481,7 +515,7 @@ def _eval_mvn(env, case):
     if not bad:
         for g, (m, s) in want.items():
             gm, gs = got[g]["mean"].tolist(), got[g]["std"].tolist()
-            if len(gm) != 2 or any(not _close(a, b) for a, b in zip(gm + gs, m + s)):
+            if len(gm) != 2 or len(gs) != 2 or any(not _close(a, b) for a, b in zip(gm + gs, m + s)):
                 bad = True
     if bad:
         env.viol(dict({"api": api, "symptom": "wrong-moments"}, **flags),
